@@ -26,6 +26,28 @@ func (e errUnbuildable) Error() string { return "unbuildable: " + e.why }
 
 // libBuild builds a library message from a field record using only the public
 // setters. autoID leaves the packet identifier unset so the library assigns it.
+// connectBuildVariant selects how libBuild drives the CONNECT setters (C03 only; everything else uses 0).
+var connectBuildVariant int
+
+// connectVariantApplies: the value setters set a flag only for a non-empty value, so a record is
+// reachable through them alone when every present field that carries a flag is non-empty (for the will:
+// the topic, which MQTT requires to be non-empty anyway; the message may be empty).
+func connectVariantApplies(p *rc.Packet) bool {
+	if p.Type != rc.CONNECT {
+		return false
+	}
+	if p.HasWill && len(p.WillTopic) == 0 {
+		return false
+	}
+	if p.HasUser && len(p.User) == 0 {
+		return false
+	}
+	if p.HasPass && len(p.Pass) == 0 {
+		return false
+	}
+	return p.HasWill || p.HasUser || p.HasPass
+}
+
 func libBuild(p *rc.Packet, autoID bool) (message.Message, error) {
 	switch p.Type {
 	case rc.CONNECT:
@@ -38,22 +60,50 @@ func libBuild(p *rc.Packet, autoID bool) (message.Message, error) {
 		if err := m.SetClientID(p.ClientID); err != nil {
 			return nil, errUnbuildable{err.Error()}
 		}
+		// connectBuildVariant 0: value setters followed by the raw flag setters. Variants 1 and 2 build
+		// through the value setters alone, which manage the flags themselves, in two orders (applicable
+		// when the values that carry the flag are non-empty: see connectVariantApplies).
+		v := connectBuildVariant
 		if p.HasWill {
-			m.SetWillTopic(p.WillTopic)
-			m.SetWillMessage(p.WillMsg)
-			m.SetWillFlag(true)
+			switch v {
+			case 1:
+				m.SetWillTopic(p.WillTopic)
+				m.SetWillMessage(p.WillMsg)
+			case 2:
+				m.SetWillMessage(p.WillMsg)
+				m.SetWillTopic(p.WillTopic)
+			default:
+				m.SetWillTopic(p.WillTopic)
+				m.SetWillMessage(p.WillMsg)
+				m.SetWillFlag(true)
+			}
 			if err := m.SetWillQos(p.WillQoS); err != nil {
 				return nil, errUnbuildable{err.Error()}
 			}
 			m.SetWillRetain(p.WillRetain)
 		}
-		if p.HasUser {
-			m.SetUsername(p.User)
-			m.SetUsernameFlag(true)
+		setUser := func() {
+			if p.HasUser {
+				m.SetUsername(p.User)
+				if v == 0 {
+					m.SetUsernameFlag(true)
+				}
+			}
 		}
-		if p.HasPass {
-			m.SetPassword(p.Pass)
-			m.SetPasswordFlag(true)
+		setPass := func() {
+			if p.HasPass {
+				m.SetPassword(p.Pass)
+				if v == 0 {
+					m.SetPasswordFlag(true)
+				}
+			}
+		}
+		if v == 2 {
+			setPass()
+			setUser()
+		} else {
+			setUser()
+			setPass()
 		}
 		return m, nil
 	case rc.CONNACK:
@@ -286,6 +336,11 @@ func libEncode(m message.Message) (b []byte, ln, n int, err error, pan interface
 		sz = 0
 	}
 	b = make([]byte, sz)
+	// the destination is not assumed to be zeroed (the service encodes into ring-buffer slices that hold
+	// old traffic): every byte Encode reports as written must have been written
+	for i := range b {
+		b[i] = 0xa5
+	}
 	n, err = m.Encode(b)
 	return
 }
